@@ -156,6 +156,135 @@ def _yield_from(stmts, func):
     return out if changed else None
 
 
+# ---------------------------------------------------------------------------------------------- join of one piece
+def _single_join(stmts, func):
+    """if len(xs) == 1: p = xs[0] else: p = SEP.join(xs)   ->   p = SEP.join(xs)   (joining one piece yields that piece;
+    also as a conditional expression)"""
+    def is_len1(t, name):
+        return isinstance(t, ast.Compare) and len(t.ops) == 1 and isinstance(t.ops[0], ast.Eq) \
+            and ast.unparse(t.left) == 'len(%s)' % name and isinstance(t.comparators[0], ast.Constant) \
+            and t.comparators[0].value == 1
+
+    def is_join(e):
+        if isinstance(e, ast.Call) and isinstance(e.func, ast.Attribute) and e.func.attr == 'join' \
+                and isinstance(e.func.value, ast.Constant) and len(e.args) == 1 and isinstance(e.args[0], ast.Name):
+            return e.args[0].id
+        return None
+
+    def is_first(e, name):
+        return isinstance(e, ast.Subscript) and isinstance(e.value, ast.Name) and e.value.id == name \
+            and isinstance(e.slice, ast.Constant) and e.slice.value == 0
+    out = []
+    changed = False
+    for s in stmts:
+        if isinstance(s, ast.If) and len(s.body) == 1 and len(s.orelse) == 1 and isinstance(s.body[0], ast.Assign) \
+                and isinstance(s.orelse[0], ast.Assign) and ast.unparse(s.body[0].targets[0]) == ast.unparse(s.orelse[0].targets[0]) \
+                and len(s.body[0].targets) == 1 and len(s.orelse[0].targets) == 1:
+            nm = is_join(s.orelse[0].value)
+            if nm and is_len1(s.test, nm) and is_first(s.body[0].value, nm):
+                out.append(s.orelse[0])
+                changed = True
+                continue
+        if isinstance(s, (ast.Assign, ast.Return)) and isinstance(s.value, ast.IfExp):
+            nm = is_join(s.value.orelse)
+            if nm and is_len1(s.value.test, nm) and is_first(s.value.body, nm):
+                s.value = s.value.orelse
+                changed = True
+        out.append(s)
+    return out if changed else None
+
+
+# ---------------------------------------------------------------------------------------------- local aliases
+def _module_names():
+    m = _MOD[0]
+    out = set()
+    if m is None:
+        return out
+    for s_ in ast.walk(m.tree):
+        if isinstance(s_, ast.Assign) and s_ in m.tree.body or isinstance(s_, (ast.If, ast.Try)) and s_ in m.tree.body:
+            for t in ast.walk(s_):
+                if isinstance(t, ast.Name) and isinstance(t.ctx, ast.Store):
+                    out.add(t.id)
+    return out
+
+
+def dealias(func, cls, qual):
+    """frames = self._frames (a local alias the pinned function does not have, bound once, of an attribute chain that is not
+    re-bound while the alias is in use)  ->  the chain itself at every use."""
+    try:
+        from .known_funcs import LOCALS
+    except ImportError:
+        return False
+    pinned = LOCALS.get(qual)
+    if pinned is None:
+        return False
+    st = _stores(func.body)
+    params = [a.arg for a in ast.walk(func.args) if isinstance(a, ast.arg)]
+    # attributes (of self) stored by each method of the class
+    stored_by = {}
+    if cls is not None:
+        for m in cls.body:
+            if isinstance(m, ast.FunctionDef):
+                stored_by[m.name] = set(x.attr for x in ast.walk(m) if isinstance(x, ast.Attribute)
+                                        and isinstance(x.ctx, (ast.Store, ast.Del)))
+    own_stores = set(x.attr for x in ast.walk(func) if isinstance(x, ast.Attribute) and isinstance(x.ctx, (ast.Store, ast.Del)))
+    changed = False
+    for n in list(_walk_own(func.body)):
+        if not (isinstance(n, ast.Assign) and len(n.targets) == 1 and isinstance(n.targets[0], ast.Name)):
+            continue
+        a = n.targets[0].id
+        if a in pinned or a in params or st.get(a) != 1 or a.startswith('_inl'):
+            continue
+        chain = []
+        e = n.value
+        while isinstance(e, ast.Attribute):
+            chain.append(e.attr)
+            e = e.value
+        is_global = not chain and isinstance(e, ast.Name) and e.id not in st and e.id not in params and e.id in _module_names()
+        if not is_global and (not chain or not (isinstance(e, ast.Name) and e.id in ('self', 'cls') and e.id in params
+                                                 and e.id not in st)):
+            continue
+        if set(chain) & own_stores:
+            continue
+        loads = [x for x in ast.walk(func) if isinstance(x, ast.Name) and x.id == a and isinstance(x.ctx, ast.Load)]
+        if not loads or any(x.lineno < n.lineno for x in loads if hasattr(x, 'lineno')):
+            continue
+        # a method of self that re-binds one of the chain's attributes may only be called after the last use
+        last = max(getattr(x, 'lineno', 0) for x in loads)
+        risky = [c for c in ast.walk(func) if isinstance(c, ast.Call) and isinstance(c.func, ast.Attribute)
+                 and isinstance(c.func.value, ast.Name) and c.func.value.id == 'self'
+                 and set(chain) & stored_by.get(c.func.attr, set())]
+        if any(n.lineno <= getattr(c, 'lineno', 0) <= last for c in risky):
+            continue
+        inloop = any(isinstance(lp, (ast.For, ast.While)) and any(x is c for c in risky for x in ast.walk(lp))
+                     and any(x in loads for x in ast.walk(lp)) for lp in ast.walk(func))
+        if inloop:
+            continue
+        value = n.value
+
+        class Sub(ast.NodeTransformer):
+            def visit_Name(self, x):
+                if x.id == a and isinstance(x.ctx, ast.Load):
+                    return ast.copy_location(copy.deepcopy(value), x)
+                return x
+
+            def visit_FunctionDef(self, x):
+                return x
+
+            def visit_Lambda(self, x):
+                return x
+
+        def blk(stmts, f_):
+            if any(s_ is n for s_ in stmts):
+                return [s_ for s_ in stmts if s_ is not n] or [ast.copy_location(ast.Pass(), n)]
+            return None
+        _Blocks(blk).run(func)
+        func.body = [Sub().visit(b) for b in func.body]
+        ast.fix_missing_locations(func)
+        changed = True
+    return changed
+
+
 # ---------------------------------------------------------------------------------------------- x[slice(a, b, c)]
 class _SliceCall(ast.NodeTransformer):
     """x[slice(a, b, c)] with literal arguments is x[a:b:c]."""
@@ -1830,6 +1959,9 @@ def simple_passes(modules, log):
         for (fn, cls) in _functions(m.tree):
             q = '%s.%s%s' % (m.name, (cls.name + '.') if cls is not None else '', fn.name)
             _CLS[0] = cls
+            if dealias(fn, cls, q):
+                log.append('local alias of an attribute replaced by the attribute in %s' % q)
+                changed = True
             if starargs(fn):
                 log.append('star-argument tuple expanded in %s' % q)
                 changed = True
@@ -1840,6 +1972,7 @@ def simple_passes(modules, log):
                 log.append('record of values replaced by its fields in %s' % q)
                 changed = True
             for name, f in (('annotated assignment written plainly', _deannotate),
+                            ('join of a single piece written as the join', _single_join),
                             ('yield from modelled as a loop', _yield_from),
                             ('next(iter(E), D) written as a loop', _next_default),
                             ('loop over chain(A, B) split', _chain_loop),
